@@ -18,8 +18,10 @@ import (
 	"path/filepath"
 	"reflect"
 	"sort"
+	"strconv"
 	"strings"
 	"sync"
+	"syscall"
 	"time"
 
 	"github.com/fiorix/go-diameter/diam"
@@ -158,13 +160,46 @@ var (
 	certKey  string
 )
 
+// freePort hands out a port for a server that is started later by number (the product's servers take their ports from the
+// configuration).  Asking the kernel for an ephemeral port and closing it again leaves a window in which another harness process
+// (a check runs up to 16 of them, several checks may run at once) or any outgoing connection of the machine can take the very
+// port: the CHF of this process then talks to another process's server.  So: ports below the ephemeral range (no outgoing
+// connection ever gets one), and a lock file per port held until this process exits (no two harness processes get the same).
+var portLocks []*os.File
+
 func freePort() int {
-	l, err := net.Listen("tcp", "127.0.0.1:0")
-	if err != nil {
-		panic(err)
+	dir := filepath.Join(os.TempDir(), "verif-ports")
+	_ = os.MkdirAll(dir, 0o777)
+	const lo, n = 12000, 20000
+	start := (os.Getpid()*131 + int(time.Now().UnixNano()%9973)) % n
+	for i := 0; i < n; i++ {
+		p := lo + (start+i)%n
+		f, err := os.OpenFile(filepath.Join(dir, strconv.Itoa(p)), os.O_CREATE|os.O_RDWR, 0o666)
+		if err != nil {
+			continue
+		}
+		if syscall.Flock(int(f.Fd()), syscall.LOCK_EX|syscall.LOCK_NB) != nil {
+			f.Close()
+			continue
+		}
+		l, err := net.Listen("tcp", fmt.Sprintf("127.0.0.1:%d", p))
+		if err != nil {
+			f.Close()
+			continue
+		}
+		l.Close()
+		portLocks = append(portLocks, f)
+		return p
 	}
-	defer l.Close()
-	return l.Addr().(*net.TCPAddr).Port
+	panic("no free port")
+}
+
+// releasePortsFrom gives back the ports handed out since mark (= len(portLocks) before): their servers are gone
+func releasePortsFrom(mark int) {
+	for _, f := range portLocks[mark:] {
+		f.Close()
+	}
+	portLocks = portLocks[:mark]
 }
 
 func writeCert(dir string) (string, string) {
